@@ -1,3 +1,4 @@
+pub mod bigrec;
 pub mod cache;
 pub mod conc;
 pub mod corr;
@@ -19,6 +20,7 @@ static MIGR: migr::MigrEngine = migr::MigrEngine;
 static CORR: corr::CorrEngine = corr::CorrEngine;
 static CACHE: cache::CacheEngine = cache::CacheEngine;
 static GOLDEN: golden::GoldenEngine = golden::GoldenEngine;
+static BIGREC: bigrec::BigRecEngine = bigrec::BigRecEngine;
 
 pub fn engine_by_name(name: &str) -> &'static dyn Engine {
     match name {
@@ -31,6 +33,7 @@ pub fn engine_by_name(name: &str) -> &'static dyn Engine {
         "corr" => &CORR,
         "cache" => &CACHE,
         "golden" => &GOLDEN,
+        "bigrec" => &BIGREC,
         other => {
             eprintln!("unknown engine {other}");
             std::process::exit(2);
@@ -102,7 +105,7 @@ pub fn plan(property: &str) -> Option<Plan> {
         ),
         "C08" => (vec![stage("conc", "C08", 40_000, 1_000_000)], "exploration"),
         "C11" => (vec![stage("seq", "C11", 24_000, 300_000), stage("conc", "C11", 30_000, 600_000), stage("crash", "C11", 2_500, 30_000)], "exploration"),
-        "C12" => (vec![stage("seq", "C12", 24_000, 300_000), stage("crash", "C12", 1_500, 20_000)], "exploration"),
+        "C12" => (vec![stage("seq", "C12", 24_000, 300_000), stage("crash", "C12", 1_500, 20_000), stage("conc", "C11", 15_000, 300_000)], "exploration"),
         "C13" => (vec![stage("seq", "C13", 24_000, 300_000), stage("conc", "C13", 40_000, 800_000), stage("crash", "C13", 2_000, 20_000)], "exploration"),
         "C14" => (vec![stage("seq", "C14", 24_000, 300_000), stage("conc", "C14", 40_000, 800_000)], "exploration"),
         "C15" => (vec![stage("migr", "C15", 8_000, 120_000)], "exploration"),
